@@ -324,6 +324,8 @@ def iter_next(ex, st, it):
                 item = Ref(base.cell, base.projs + (("index", pos),))
                 if it.e == "owned":  # Vec<T>::into_iter yields the elements themselves
                     item = vec.items[pos]
+                if it.e == "values":  # BTreeMap::values yields &V
+                    item = Ref(base.cell, base.projs + (("index", pos), ("field", 1, None)))
                 if it.e == "pairs":  # BTreeMap iteration yields (&K, &V)
                     item = Adt("tuple", None, (Ref(base.cell, base.projs + (("index", pos), ("field", 0, None))),
                                                Ref(base.cell, base.projs + (("index", pos), ("field", 1, None)))))
@@ -753,6 +755,49 @@ def m_iter_position(ex, st, callee, args, dest_ty):
         yield from rec(st2, 0)
 
 
+def m_btree_values(ex, st, callee, args, dest_ty):
+    base, m = _map_ref(ex, st, args[0])
+    yield st, Opaque("SliceIter", "values", (base, 0))
+
+
+def m_sort_by_key(ex, st, callee, args, dest_ty):
+    """slice::sort_by_key with an integer key: a stable insertion sort; the key closure is the real code, keys are compared in z3"""
+    r, f = args
+    base = r
+    while isinstance(ex.read(st, base.cell, base.projs), Ref):
+        base = ex.read(st, base.cell, base.projs)
+    v = ex.read(st, base.cell, base.projs)
+    n = ex.concrete(v.len)
+    if n is None:
+        raise MirUnsupported("sort_by_key on a vector of symbolic length")
+
+    def key_of(st, x):
+        for o in _call_closure(ex, st, f, [Ref(ex.new_cell(st, x, "key"))]):
+            if o.kind != "return" or not isinstance(o.value, Sc):
+                raise MirUnsupported("sort key closure did not return an integer")
+            yield o.st, o.value.e
+
+    def insert(st, acc, x, kx, pos):
+        if pos == 0:
+            yield st, [(x, kx)] + acc
+            return
+        ky = acc[pos - 1][1]
+        for st2 in ex.branch(st, ky > kx):
+            yield from insert(st2, acc, x, kx, pos - 1)
+        for st2 in ex.branch(st, ky <= kx):
+            yield st2, acc[:pos] + [(x, kx)] + acc[pos:]
+
+    def rec(st, k, acc):
+        if k == n:
+            ex.write(st, base.cell, base.projs, VecV(z3.IntVal(n), [a for a, _ in acc], v.elem_ty))
+            yield st, UNIT
+            return
+        for st2, kx in key_of(st, v.items[k]):
+            for st3, acc2 in insert(st2, acc, v.items[k], kx, len(acc)):
+                yield from rec(st3, k + 1, acc2)
+    yield from rec(st, 0, [])
+
+
 def m_sort_by(ex, st, callee, args, dest_ty):
     """slice::sort_by: a stable sort; modelled as insertion sort calling the comparator closure (the order of comparisons of
     std's merge sort differs, the result of a stable sort with a consistent comparator does not)"""
@@ -795,4 +840,8 @@ VALUE_MODELS += [
     (R(r"^<(std::iter::)?(Filter|Map|FilterMap)<.*> as Iterator>::collect::<Vec<.*>>$"), m_collect_vec),
     (R(r"^<std::slice::Iter<.*> as Iterator>::position::<.*>$"), m_iter_position),
     (R(r"^(core|std)::slice::<impl \[.*\]>::sort_by::<.*>$"), m_sort_by),
+    (R(r"^(core|std)::slice::<impl \[.*\]>::sort_by_key::<.*>$"), m_sort_by_key),
+    (R(r"^BTreeMap::<.*>::values$"), m_btree_values),
+    (R(r"^<std::collections::btree_map::Values<.*> as Iterator>::collect::<Vec<.*>>$"), m_collect_vec),
+    (R(r"^<std::vec::IntoIter<.*> as Iterator>::(filter|map|filter_map)::<.*>$"), m_iter_adapt),
 ]
